@@ -262,6 +262,7 @@ impl CredentialStore for RefStore {
 // wrappers
 
 /// Records every call with arguments and result.
+#[derive(Clone)]
 pub struct Logging<S> {
     pub inner: S,
     pub log: Log,
@@ -328,12 +329,18 @@ impl<S: CredentialStore<PasskeyItem = Passkey> + Send + Sync> CredentialStore fo
 }
 
 /// Fails the k-th faultable call (find / save / update, counted from 0) with the planned byte,
-/// without executing it.
+/// without executing it.  (A clone shares the injection record and starts from the same call count:
+/// a library that copies its store keeps one fault plan.)
 pub struct Faulting<S> {
     pub inner: S,
     pub plan: BTreeMap<usize, u8>,
     pub calls: AtomicUsize,
     pub injected: Arc<Mutex<Vec<(usize, &'static str, u8)>>>,
+}
+impl<S: Clone> Clone for Faulting<S> {
+    fn clone(&self) -> Self {
+        Self { inner: self.inner.clone(), plan: self.plan.clone(), calls: AtomicUsize::new(self.calls.load(Ordering::SeqCst)), injected: self.injected.clone() }
+    }
 }
 impl<S> Faulting<S> {
     pub fn new(inner: S, plan: BTreeMap<usize, u8>) -> Self {
@@ -376,6 +383,7 @@ impl<S: CredentialStore<PasskeyItem = Passkey> + Send + Sync> CredentialStore fo
 
 /// Fails every call of one operation with a status *value* (not a byte: `Ctap1(Success)` and
 /// `Ctap2(Ok)` share byte 0x00, and only the latter can be built from a byte).
+#[derive(Clone)]
 pub struct FailValue<S> {
     pub inner: S,
     /// "find" | "save" | "update"
@@ -459,6 +467,7 @@ impl<S: Inspect> Inspect for ReorderKeys<S> {
 }
 
 /// Suspends `before` times before and `after` times after each call of the inner store.
+#[derive(Clone)]
 pub struct Yielding<S> {
     pub inner: S,
     pub before: usize,
